@@ -281,6 +281,14 @@ def earlier_generation(case, script='test_Job.py', timeout=180):
     return p.returncode
 
 
+def run_command_by_hand(case, timeout=120):
+    """What a user does between changing the command and running the tests: runs the command once, in the working directory."""
+    env = common.child_env({'HOME': case['wd'] + '_home'})
+    env['TMPDIR'] = os.path.join(case['wd'] + '_tmp')
+    subprocess.run('%s cmd.py%s' % (common.PY, case.get('cmd_args', '')), shell=True, cwd=case['wd'], env=env,
+                   stdout=subprocess.DEVNULL, stderr=subprocess.DEVNULL, timeout=timeout)
+
+
 RE_TEST = re.compile(r'^(test_\w+) \(.*\) \.\.\. (ok|FAIL|ERROR|skipped.*)$', re.M)
 
 
